@@ -337,6 +337,168 @@ def check_C11(v, tier, seed):
     return cov
 
 
+def proc_facts(c):
+    f = {"case": c.id, "op": c.op[0], "base": c.op[1], "flags": c.op[2], "handle": c.meta.get("handle"),
+         "hemu": c.cfg.get("hemu"), "res": " ".join(c.res)}
+    try:
+        f["path"] = unhex(c.op[3]).decode("latin1")
+    except Exception:
+        pass
+    for k in ("mask", "dst", "over", "visible", "env", "class", "uid"):
+        if k in c.meta:
+            f[k] = c.meta[k]
+    return f
+
+
+def res_fd(c):
+    if c.res[:2] == ["ok", "fd"]:
+        return c.kv(c.res[2:])
+    return None
+
+
+PROC_MAGIC = "40864"
+
+
+def check_C06(v, tier, seed):
+    if tier == "thorough":
+        import random
+        rnd = random.Random(seed)
+        masks = [0, 4095] + [1 << i for i in range(12)] + [4095 ^ (1 << i) for i in range(12)] + \
+            [rnd.randrange(1, 4095) for _ in range(40)]
+    else:
+        masks = [0, 4095, 4087, 1365, 2730]
+    runs = [Run("C06-overmount", ["proc-overmount", "--masks", ",".join(str(m) for m in masks)])]
+    if tier == "thorough":
+        runs.append(Run("C06-overmount-enosys", ["proc-overmount", "--masks", "0,4095,4087", "--no-openat2"]))
+    concrete = set()
+    stats = {"visible_overmounted_lookups": 0, "exdev": 0, "private_lookups": 0, "skipped": 0}
+    for r in runs:
+        pristine = {}
+        for c in r.cases:
+            if c.op[:1] == ["skip"]:
+                stats["skipped"] += 1
+                continue
+            key = (c.meta.get("handle"), c.cfg.get("hemu"), tuple(c.op))
+            if c.meta.get("mask") == "0":
+                d = res_fd(c)
+                pristine[key] = (c.res[:3] if d is None else ["ok", "fd", d.get("kind"), d.get("fstype")])
+        for c in r.cases:
+            if c.op[:1] == ["skip"]:
+                continue
+            msg = None
+            layout = c.meta.get("layout", "none")
+            overs = set()
+            if layout != "none":
+                for item in layout.split(","):
+                    overs.add(item.rsplit("@", 1)[1])
+            d = res_fd(c)
+            visible = c.meta.get("visible") == "1"
+            over = c.meta.get("over", "none")
+            if visible and over != "none":
+                stats["visible_overmounted_lookups"] += 1
+                if c.res[:3] == ["err", "OsError", "18"]:
+                    stats["exdev"] += 1
+            if d is not None:
+                ident = f"{d.get('dev')}:{d.get('ino')}"
+                if ident in overs:
+                    msg = f"the over-mounted object {ident} was returned"
+                elif visible and over != "none":
+                    msg = "lookup of a visibly over-mounted entry succeeded instead of failing with EXDEV"
+                elif c.op[0] == "proc_open" and (d.get("fstype") != PROC_MAGIC or
+                                                  (d.get("mnt") != c.cfg.get("hmnt") and c.cfg.get("hsubset") != "1")):
+                    # (a masked handle may answer from a fresh private unmasked procfs: other mount id, still procfs)
+                    msg = f"non-following open returned an object that is not on the handle's procfs mount: {d}"
+            if msg is None and not visible and c.meta.get("mask") != "0":
+                stats["private_lookups"] += 1
+                key = (c.meta.get("handle"), c.cfg.get("hemu"), tuple(c.op))
+                want = pristine.get(key)
+                got = (c.res[:3] if d is None else ["ok", "fd", d.get("kind"), d.get("fstype")])
+                if want is not None and want != got:
+                    msg = f"private handle affected by host over-mounts: pristine {want}, now {got}"
+            if msg:
+                facts = proc_facts(c)
+                facts.update({"kind": "oracle", "oracle": msg})
+                v.fail(facts, case_replay(c, msg))
+                concrete.add((r.name, c.id))
+    broken = generic_tie(v, runs, concrete)
+    cov = coverage_of(runs, nontrivial=lambda c: c.meta.get("mask") not in (None, "0"),
+                      key=lambda c: (c.meta.get("mask"), c.meta.get("handle"), c.cfg.get("hemu"), tuple(c.op)))
+    cov["rule"] = ("private mount namespace; subsets (masks) of 12 over-mountable procfs entries (files, directories, symlinks, "
+                   "magic-links; tmpfs / foreign file / other procfs object) x 7 handle kinds x both resolvers x "
+                   "{open O_PATH, open O_RDONLY, open_follow, readlink} on every candidate and on symlinks whose target is "
+                   "over-mounted; non-trivial = at least one over-mount present")
+    cov["tie_mismatches"] = broken
+    cov["layouts"] = len(masks)
+    cov.update(stats)
+    return cov
+
+
+def check_C07(v, tier, seed):
+    n = sizes(tier, 250, 1500)
+    runs = [Run("C07-live", ["proc-live", "--seed", str(seed), "--n", str(n)])]
+    if tier == "thorough":
+        runs.append(Run("C07-live-enosys", ["proc-live", "--seed", str(seed + 1), "--n", str(n // 2), "--no-openat2"]))
+    concrete = set()
+    pairs = 0
+    for r in runs:
+        for c in r.cases:
+            msg = None
+            path = unhex(c.op[3])
+            comps = path.split(b"/")
+            flags = int(c.op[2])
+            d = res_fd(c)
+            creation = flags & (0o100 | 0o200) or (flags & 0o20200000) == 0o20200000
+            if creation and c.op[0] != "proc_readlink":
+                if c.res[:1] != ["err"]:
+                    msg = f"creation flags not refused: {' '.join(c.res)}"
+            elif b".." in comps and d is not None and c.cfg.get("hemu") == "1":
+                msg = "the emulated resolver walked through '..'"
+            elif c.op[0] == "proc_open" and d is not None and d.get("fstype") != PROC_MAGIC:
+                msg = f"non-following open left procfs: {d}"
+            if msg:
+                facts = proc_facts(c)
+                facts.update({"kind": "oracle", "oracle": msg})
+                v.fail(facts, case_replay(c, msg))
+                concrete.add((r.name, c.id))
+        # resolver vs resolver
+        for c in r.cases:
+            if not c.id.endswith("k"):
+                continue
+            e = r.by_id.get(c.id[:-1] + "e")
+            if e is None:
+                continue
+            pairs += 1
+            path = unhex(c.op[3])
+            if path == b"" or b".." in path.split(b"/"):
+                continue  # outside the agreement clause of the property
+            import re as _re
+            mfd = _re.search(rb"(^|/)fd(info)?/(\d+)", path)
+            if mfd and int(mfd.group(3)) > 2:
+                continue  # descriptors of the harness itself differ between the two runs
+            def canon(x):
+                dd = res_fd(x)
+                if dd is None:
+                    return tuple(x.res[:3])
+                # (inode numbers of per-process entries differ between procfs instances)
+                return ("ok", "fd", dd.get("kind"), dd.get("fstype"), int(dd.get("fl", "0")) & ~0o400000)
+            if canon(c) != canon(e):
+                facts = proc_facts(e)
+                facts.update({"kind": "oracle", "oracle": f"procfs resolvers disagree: kernel {canon(c)} emulated {canon(e)}",
+                              "kernel_res": " ".join(c.res[:3]), "emulated_res": " ".join(e.res[:3])})
+                v.fail(facts, {"why": facts["oracle"], "case": {"kernel_resolver": c.raw, "emulated_resolver": e.raw}})
+                concrete.add((r.name, c.id))
+                concrete.add((r.name, e.id))
+    broken = generic_tie(v, runs, concrete)
+    cov = coverage_of(runs, nontrivial=lambda c: len(c.events) >= 3,
+                      key=lambda c: (c.meta.get("handle"), c.cfg.get("hemu"), tuple(c.op)))
+    cov["rule"] = ("sub-paths built from the live listings of /proc, /proc/self, /proc/thread-self (every fd and ns link, with "
+                   "'.', '..', '', trailing-slash decorations, non-existent tails) x {open, open_follow, readlink} x 10 flag sets "
+                   "x {private full procfs, host /proc} x both resolvers; non-trivial = at least 3 system calls")
+    cov["tie_mismatches"] = broken
+    cov["resolver_pairs_compared"] = pairs
+    return cov
+
+
 SYSCTL_PSL = "/proc/sys/fs/protected_symlinks"
 
 
@@ -632,6 +794,8 @@ PROPS = {
     "C03": check_C03,
     "C04": check_C04,
     "C05": check_C05,
+    "C06": check_C06,
+    "C07": check_C07,
     "C11": check_C11,
     "C15": check_C15,
     "C16": check_C16,
